@@ -139,7 +139,8 @@ impl AsyncRead for Scripted {
                 }
                 Some(REv::Fail) => {
                     s.rd.push_front(REv::Fail);
-                    return Poll::Ready(Err(std::io::Error::new(std::io::ErrorKind::ConnectionReset, "scripted reset")));
+                    let kind = fault_kind(s.consumed + 1);
+                    return Poll::Ready(Err(std::io::Error::new(kind, "scripted reset")));
                 }
                 Some(REv::Interrupted) => {
                     return Poll::Ready(Err(std::io::Error::new(std::io::ErrorKind::Interrupted, "scripted EINTR")));
@@ -221,7 +222,8 @@ impl AsyncWrite for Scripted {
             }
             WEv::Fail => {
                 s.failed = true;
-                Poll::Ready(Err(std::io::Error::new(std::io::ErrorKind::BrokenPipe, "scripted failure")))
+                let kind = fault_kind(s.written.len());
+                Poll::Ready(Err(std::io::Error::new(kind, "scripted failure")))
             }
             WEv::Interrupted => Poll::Ready(Err(std::io::Error::new(std::io::ErrorKind::Interrupted, "scripted EINTR"))),
             WEv::WaitRead(n) => {
@@ -261,4 +263,11 @@ impl AsyncWrite for Scripted {
     fn poll_shutdown(self: Pin<&mut Self>, _: &mut Context<'_>) -> Poll<std::io::Result<()>> {
         Poll::Ready(Ok(()))
     }
+}
+
+/// the kind of I/O error a scripted failure reports: it rotates with the number of octets that went through before, so
+/// that no error kind is special (a peer can go away in many ways) and a replay of the same script fails the same way
+pub fn fault_kind(n: usize) -> std::io::ErrorKind {
+    use std::io::ErrorKind::*;
+    [BrokenPipe, ConnectionReset, ConnectionAborted, TimedOut, Other, NotConnected, PermissionDenied, HostUnreachable][n % 8]
 }
